@@ -154,9 +154,8 @@ theorem convNode_rel (k : IKind) (c1 : NS) (g1 : Spec.GV) (i1 : Inv c1 g1) :
     · simp only [hr, if_true]
       have hcv := convertUntypedY_int c1 ka hka p k h1ty h1rv hr
       have hrep := representableY_int k p hr
-      have hn : convNodeY F0 (.i k) c1 = .ok { rv := .r (.i k) (.int p), ty := .t (.i k),
-          inner := ({ c1 with rv := .r (.i k) (.int p), ty := .t (.i k), self := false, set := false } : NS).loose } := by
-        simp only [convNodeY, h1rv, hrep, if_true, bind_ok, h1ty, Ty.untyped, hcv, reflectConvert, wrapK_of_repr k p hr]
+      have hn : convNodeY F0 (.i k) c1 = .ok { rv := .r (.i k) (.int p), ty := .t (.i k), inner := c1.inner } := by
+        simp [convNodeY, h1rv, hrep, h1ty, Ty.untyped, hcv, reflectConvert, wrapK_of_repr k p hr, NS.loose]
       rw [hn]
       exact .ok _ _ (Inv.of_typed _ _ _ rfl rfl hr)
     · have hr' : Spec.reprGo k p = false := by simpa using hr
